@@ -189,6 +189,9 @@ def check(ctx):
     inner = shape.inline(inner, fn.body)
     probs = []
     try:
+        if isinstance(inner, ast.Call) and ast.unparse(inner.func).endswith("transpose") and not inner.args[1:] and not inner.keywords:
+            # full axis reversal: [d c] -> [rev(c) rev(d)]: the wires inside dom and inside cod are reversed as well
+            raise Unlocatable("numpy transpose reverses all axes: layout [rev(cod) | rev(dom)], equal to [cod | dom] only for one-wire types")
         ctx.need(isinstance(inner, ast.Call) and ast.unparse(inner.func).endswith("moveaxis") and len(inner.args) == 3, "Tensor.dagger does not use moveaxis")
         ev = Evaluator(Facts(), q)
         env = {self_: me}
